@@ -219,6 +219,8 @@ type Result struct {
 	Entry   *EntryView
 	Map     map[int]int
 	Entries []EntryView
+	IterNow  []int64  // iterators: clock when the loop body of element i returned
+	IterTick []uint64 // iterators: event sequence value at that moment
 	Num     uint64
 	Nil     bool // nil refresh channel
 	Refresh []RefreshView
@@ -855,6 +857,12 @@ func (r *Runner) midIter(op *Op, res *Result) {
 	if op.D2 > 0 && len(res.Entries) == 1 {
 		r.Advance(op.D2)
 	}
+	// the consumer is slow: other tasks may run while the loop body does. The clock and the event
+	// sequence value at the end of the body are lower bounds for the moment the traversal looks
+	// at its next element.
+	simrt.Point(simrt.KCallback)
+	res.IterNow = append(res.IterNow, r.W.Now)
+	res.IterTick = append(res.IterTick, r.W.Tick())
 }
 
 func (r *Runner) awaitRefresh(recv func()) {
